@@ -6,7 +6,7 @@
 //! output: `<logs|traces|metrics|none> discard=<delta of event_discarded>`
 
 use crate::collector::{Collector, Signal};
-use crate::evt::{self, Ext, V};
+use crate::evt::{self, Ext, D, V};
 use emit::Emitter as _;
 use hcommon::{Rng, Sexp, Stream, Tier};
 use std::collections::HashMap;
@@ -152,7 +152,7 @@ fn kind_variants() -> Vec<(&'static str, Vec<Vec<V>>)> {
                 vec![s("SPAN")],
                 vec![s(" Span\t")],
                 vec![s("\u{2003}sPaN\u{a0}\n")],
-                vec![V::Disp("span".into())],
+                vec![V::Disp(D("span".into()))],
                 vec![s("span"), V::Kind(metric)],
                 vec![V::Kind(span), s("nonsense")],
             ],
@@ -164,7 +164,7 @@ fn kind_variants() -> Vec<(&'static str, Vec<Vec<V>>)> {
                 vec![s("metric")],
                 vec![s("METRIC")],
                 vec![s("\tmEtRiC  ")],
-                vec![V::Disp(" Metric".into())],
+                vec![V::Disp(D(" Metric".into()))],
                 vec![s("metric"), V::Kind(span)],
                 vec![V::Kind(metric), s("span")],
             ],
@@ -183,7 +183,7 @@ fn kind_variants() -> Vec<(&'static str, Vec<Vec<V>>)> {
                 vec![V::Null],
                 vec![seq(vec![s("span")])],
                 vec![s("log"), V::Kind(span)],
-                vec![V::Disp("x".into()), V::Kind(metric)],
+                vec![V::Disp(D("x".into())), V::Kind(metric)],
             ],
         ),
     ]
@@ -245,7 +245,7 @@ fn value_variants() -> Vec<(&'static str, Vec<Option<V>>)> {
                 Some(s("")),
                 Some(V::Bool(true)),
                 Some(V::Null),
-                Some(V::Disp("1".into())),
+                Some(V::Disp(D("1".into()))),
                 Some(V::Kind(emit::Kind::Metric)),
                 Some(V::U64(u64::MAX)),
                 Some(V::U64(i64::MAX as u64 + 1)),
@@ -270,7 +270,7 @@ fn agg_variants() -> Vec<(&'static str, Vec<Option<V>>)> {
         ("last", vec![Some(s("last"))]),
         (
             "unknown",
-            vec![Some(s("p99")), Some(s("SUM")), Some(s(" sum")), Some(s("Count")), Some(V::I64(1)), Some(V::Disp("sum".into())), Some(V::Null), Some(V::Bool(true))],
+            vec![Some(s("p99")), Some(s("SUM")), Some(s(" sum")), Some(s("Count")), Some(V::I64(1)), Some(V::Disp(D("sum".into()))), Some(V::Null), Some(V::Bool(true))],
         ),
     ]
 }
